@@ -337,7 +337,28 @@ fn gen_vals(rng: &mut Rng, site: &Site, rich: bool) -> PVals {
         _ => rng.range(0, n.min(4)),
     };
     let start = rng.below(n - count.min(n) + 1);
-    (start..start + count)
+    // mostly a contiguous run in declaration order (what the macros produce); sometimes the
+    // public `FieldSet::value_set` API is used directly: arbitrary order, repeated fields
+    let mut idxs: Vec<usize> = (start..start + count).collect();
+    if count > 0 && rng.chance(1, 5) {
+        match rng.below(3) {
+            0 => idxs.reverse(),
+            1 => {
+                for i in (1..idxs.len()).rev() {
+                    let j = rng.below(i + 1);
+                    idxs.swap(i, j);
+                }
+            }
+            _ => {
+                let extra = rng.range(1, 3).min(32 - idxs.len().min(32));
+                for _ in 0..extra {
+                    let pos = rng.below(idxs.len() + 1);
+                    idxs.insert(pos, rng.below(n));
+                }
+            }
+        }
+    }
+    idxs.into_iter()
         .map(|i| {
             let tok = if rich {
                 // JSON (the reference lossless encoding of C01) cannot carry non-finite floats
